@@ -75,6 +75,16 @@ pub fn json_stringify(
     // Third argument is space/indent
     let indent = args.get(2).cloned().unwrap_or(JsValue::Undefined);
 
+    // A value without a JSON form at the top level gives undefined, not the text "null"
+    let no_json_form = match &value {
+        JsValue::Undefined | JsValue::Symbol(_) => true,
+        JsValue::Object(o) => matches!(o.borrow().exotic, ExoticObject::Function(_)),
+        _ => false,
+    };
+    if no_json_form {
+        return Ok(Guarded::unguarded(JsValue::Undefined));
+    }
+
     // Track visited objects for circular reference detection
     let mut visited = FxHashSet::default();
     let json = js_value_to_json_with_visited(&value, &mut visited)?;
